@@ -9,7 +9,7 @@ from .terms import Program
 from .paths import TooManyPaths, NotLoopFree
 
 VERIF = X.VERIF
-QUICK_CONFIGS = ["default"]
+QUICK_CONFIGS = ["default", "nopar", "nopar-derive", "nightly"]    # code under a feature switch is code: a change there is a change (it used to be thorough-only)
 THOROUGH_CONFIGS = ["default", "nopar", "nopar-derive", "nightly"]
 
 
